@@ -7,7 +7,7 @@ from vlib import boolsem, gen_circ, sims
 ID = "C11"
 CASE_TIMEOUT = 8  # seconds per case; a timed-out case is counted as skipped (symbolic blow-up on long feedback runs), never as a verdict
 RULE = (
-    "Hypothesis generates circuits of 1..5 qubits: runs of X/CX/CCX/MCX(3..5 controls) interleaved with "
+    "Hypothesis generates circuits of 1..5 qubits (one case in seven: 10..13 qubits): runs of X/CX/CCX/MCX(3..5 controls) interleaved with "
     "H/Z/S/T/Y/P/CZ/CP/SWAP and barriers (leading, trailing, doubled, inside runs); inner quantifier: all 2^n basis "
     "states at section entry. Non-trivial = (>=2 sections, or a section adjacent to a barrier or non-classical gate) "
     "and some section with >=3 gates; distinct by canonical JSON of the gate list"
@@ -23,7 +23,10 @@ def budget(tier):
 
 
 def strategy(tier):
-    return gen_circ.mixed_circuit(1, 5, max_segments=5)
+    small = gen_circ.mixed_circuit(1, 5, max_segments=5)
+    # registers wider than ten qubits (two-digit default qubit names), short runs: still all 2^n entry states
+    wide = gen_circ.mixed_circuit(10, 13, max_segments=3, run_max=5)
+    return st.integers(0, 6).flatmap(lambda k: wide if k == 0 else small)
 
 
 def runs_of(case_gates):
